@@ -90,6 +90,14 @@ def cases(ctx):
             if mode:
                 c['mode'] = mode
             out.append(c)
+    # text for which str.isdigit() / str.isalnum() / str.isdecimal() hold although the ENCODED bytes are not ASCII digits / the 45 characters:
+    # Arabic-Indic, Devanagari, full-width and superscript digits, full-width Latin capitals (mode detection must look at the bytes)
+    for txt in ('\u0661\u0662\u0663', '\uff12\uff10\uff12\uff14', '\u00b2\u00b3', '\u0967\u0968', '12\u0663', '\uff21\uff22', '\u0661'):
+        for mode in (None, 'numeric', 'alphanumeric', 'byte'):
+            c = {'content': txt, 'mask': 0, 'boost_error': False}
+            if mode:
+                c['mode'] = mode
+            out.append(c)
     # GB2312 byte pairs incl. invalid trail bytes under hanzi
     for _ in range(200 if ctx.thorough else 60):
         b = bytes([rng.choice([0xa1, 0xaa, 0xab, 0xb0, 0xfa, 0xfb]), rng.choice([0xa0, 0xa1, 0xfe, 0xff, 0x00, 0x60])])
